@@ -22,7 +22,7 @@ pub const WORDS: &[&str] = &[
     "+0", "-0.0", "0.0", "9223372036854775807", "9223372036854775808", "-9223372036854775808", "-9223372036854775809", "+9223372036854775807",
     "+9223372036854775808", "0x7FFFFFFFFFFFFFFF", "0x8000000000000000", "0xFFFFFFFFFFFFFFFF", "0xffffffffffffffffff", "0o777777777777777777777",
     "0o1000000000000000000000", "0o7777777777777777777777", "123456789012345678901234567890", "0.1", "1.0", "1.", "3.14159", "6.02e23", "12e03",
-    "0x0", "0o0", "0xdeadBEEF", "0xG", "0o8", "0x1F ", " 1", "1,000", "1:30", "1:30:00", "2001-12-14", "0b101", "1e5.5", "０", "١", "1٠", "−1", "",
+    "0x0", "0o0", "0xdeadBEEF", "0xG", "0o8", "0x1F ", " 1", "1,000", "1:30", "1:30:00", "2001-12-14", "0b101", "1e5.5", "3.14159265358979323846264338327950288419716939937510582097494459230781640628", "000000000000000000000000000000000000000000000000000000000000000042", "10000000000000000000000000000000000000000000000000000000000000000000000", "-3.14159265358979323846264338327950288419716939937510582097494459230781640628", "0x000000000000000000000000000000000000000000000000000000000000001F", "0o000000000000000000000000000000000000000000000000000000000000000000000017", "99999999999999999999999999999999999999999999999999999999999999999999999999999999.5e-3", "+000000000000000000000000000000000000000000000000000000000000000042", "０", "١", "1٠", "−1", "",
 ];
 
 #[derive(Clone, Debug, PartialEq)]
